@@ -80,6 +80,8 @@ def main():
     ap.add_argument('--prop')
     ap.add_argument('--jobs', type=int, default=1)
     ap.add_argument('--tier', default='quick')
+    ap.add_argument('--check', help='run this check instead of the one of '
+                                    'the property the change was written for')
     ap.add_argument('--seeded', action='store_true',
                     help='run the independent changes under /verif/seeded')
     ap.add_argument('--benign', action='store_true',
@@ -104,6 +106,9 @@ def main():
         ms = [m for m in ms if m['id'] in ids]
     if a.prop:
         ms = [m for m in ms if m['property'] == a.prop]
+    if a.check:
+        ms = [dict(m, id=m['id'] + '@' + a.check, property=a.check)
+              for m in ms]
     out = []
     with ThreadPoolExecutor(a.jobs) as ex:
         for r in ex.map(lambda m: run_one(m, a.tier), ms):
